@@ -4,7 +4,7 @@ PROPS[pid]["rules"] = [(rule id, floor of decided instances, selector over insta
 Floors are the numbers counted on the tree the rules were written against: a rule that suddenly
 matches fewer sites is a broken check (exit 2), never a silent pass.
 """
-from . import di, ug, em, wt, mf, lp, wc, mk, nc, lt, td, pm, hs, ws, tf, ec, se, bb, lc, cm, vt, bt, sr, le, wf, dp, dt, he, gl, ts, ee, sl, wp, fs, ic, nb, im, rn, mp, sp, ms, cp, sh, st, rh, vo, wi, law, cn, pr, dtr, sa, vx
+from . import tr, di, ug, em, wt, mf, lp, wc, mk, nc, lt, td, pm, hs, ws, tf, ec, se, bb, lc, cm, vt, bt, sr, le, wf, dp, dt, he, gl, ts, ee, sl, wp, fs, ic, nb, im, rn, mp, sp, ms, cp, sh, st, rh, vo, wi, law, cn, pr, dtr, sa, vx
 
 
 def has(*subs):
@@ -30,6 +30,7 @@ RULES = {
     "LP": {"run": lp.run},
     "UG": {"run": ug.run},
     "DI": {"run": di.run},
+    "TR": {"run": tr.run},
     "EM": {"run": em.run},
     "WT": {"run": wt.run},
     "MF": {"run": mf.run},
@@ -110,7 +111,7 @@ PROPS = {
     },
     "C03": {
         "level": "other",
-        "rules": [("CP", 32, has("builder::sdd::", "repr::sdd::SddPtr")), ("DT", 7, has("SddPtr", "BottomUpBuilder::or:", "BottomUpBuilder::compose:")),
+        "rules": [("TR", 0, has("repr::sdd", "builder::sdd")), ("CP", 32, has("builder::sdd::", "repr::sdd::SddPtr")), ("DT", 7, has("SddPtr", "BottomUpBuilder::or:", "BottomUpBuilder::compose:")),
                   ("IM", 14, has("IM2", "IM3")), ("HE", 4, has("BinarySDD:scratch", "SddOr:scratch", "BinarySDD:fields", "SddOr:fields")),
                   ("ST", 2, None), ("SH", 1, has("SddPtr> for T>::condition")), ("SA", 10, None), ("VX", 11, None),
                   ("VO", 1, vo_sel("::sdd::", only_label_order=True)),
@@ -155,7 +156,7 @@ PROPS = {
     },
     "C08": {
         "level": "other",
-        "rules": [("DI", 0, None), ("SL", 7, None), ("CP", 2, has("smooth_helper")), ("VO", 3, has("var_at_level", "new_last")), ("LAW", 55, None), ("IC", 1, has("repr::wmc::")), ("LT", 1, has("WmcParams")), ("WT", 5, hasnot("from_litvec")), ("NB", 33, None),
+        "rules": [("DI", 0, None), ("SL", 7, None), ("CP", 2, has("smooth_helper")), ("VO", 3, has("var_at_level", "new_last", "VarOrder::new:inverse-by-construction")), ("LAW", 55, None), ("IC", 1, has("repr::wmc::")), ("LT", 1, has("WmcParams")), ("WT", 5, hasnot("from_litvec")), ("NB", 33, None),
                   ("SP", 14, has("SP1", "SP2")), ("MS", 13, None), ("SH", 1, has("BddPtr as repr::ddnnf::DDNNFPtr>::fold:SH5"))],
         "explanation": "Level bookkeeping of smooth_helper: every node built is labelled with var_at_level(current) or with a "
                        "node variable that a dominating test equates with it, children recurse one level down, smooth starts "
@@ -164,7 +165,7 @@ PROPS = {
     },
     "C10": {
         "level": "proof",
-        "rules": [("DI", 0, None), ("SP", 17, None), ("IM", 9, has("IM5")), ("HE", 3, has("scratch-private")), ("HE", 3, has(":fields")), ("GL", 8, has("GL6", "GL9")),
+        "rules": [("TR", 0, has("semantic_hash")), ("DI", 0, None), ("SP", 17, None), ("IM", 9, has("IM5")), ("HE", 3, has("scratch-private")), ("HE", 3, has(":fields")), ("GL", 8, has("GL6", "GL9")),
                   ("DP", 2, has("unsmoothed_wmc:fold", "evaluate:via-count"))],
         "explanation": "Structural proof of 'every per-node scratch slot is empty again when a public call returns', for all "
                        "call sequences: the only per-node mutable state is the two private RefCell fields (HE), the scratch "
@@ -177,7 +178,7 @@ PROPS = {
     },
     "C11": {
         "level": "other",
-        "rules": [("CM", 3, has("compress:CM")), ("CP", 4, has("cached_semantic_hash:sign", "check_cached_hash_and_neg")), ("IM", 3, has("IM5:semantic_hash")),
+        "rules": [("TR", 0, has("semantic", "backing_store")), ("CM", 3, has("compress:CM")), ("CP", 4, has("cached_semantic_hash:sign", "check_cached_hash_and_neg")), ("IM", 3, has("IM5:semantic_hash")),
                   ("NB", 33, None), ("IC", 4, has("create_semantic_hash_map")), ("GL", 6, has("GL7", "GL3:return-found")), ("WC", 2, has("sdd-apply-cache")), ("RH", 1, has("grow:rehome")),
                   ("CP", 3, has("decision_nnf::builder::DecisionNNFBuilder::cond_helper")), ("SE", 11, None), ("WC", 6, has("sdd-node"))],
         "explanation": "Hash values follow the pointer's sign (complemented -> negate(hash of the regular pointer)) and a node "
@@ -240,7 +241,7 @@ PROPS = {
     },
     "C12": {
         "level": "other",
-        "rules": [("BB", 22, None), ("LAW", 6, has(":join", ":meet", ":choose")), ("LAW", 2, has("RealSemiring:eq-is-value-equality", "ExpectedUtility:eq-is-value-equality")), ("VO", 1, vo_sel("repr::bdd", only_label_order=True)), ("LAW", 5, has("ExpectedUtility:mul", "ExpectedUtility:distrib", "ExpectedUtility:add", "ExpectedUtility:one", "ExpectedUtility:zero")),
+        "rules": [("TR", 0, has("repr::bdd::BddPtr")), ("BB", 22, None), ("LAW", 6, has(":join", ":meet", ":choose")), ("LAW", 2, has("RealSemiring:eq-is-value-equality", "ExpectedUtility:eq-is-value-equality")), ("VO", 1, vo_sel("repr::bdd", only_label_order=True)), ("LAW", 5, has("ExpectedUtility:mul", "ExpectedUtility:distrib", "ExpectedUtility:add", "ExpectedUtility:one", "ExpectedUtility:zero")),
                   ("FS", 2, lambda x: "repr::bdd::BddPtr::" in x["key"] and x["key"].endswith("<-Mul")), ("PM", 4, has("::set:", "::get:", "assignment_iter", "shared-model-restored"))],
         "explanation": "Decides the part of 'returns the optimum and an assignment attaining it' that is in the shape of the three "
                        "sibling searches (marginal_map_h, meu_h, bb_h), their bound functions and drivers, checked identically on "
@@ -290,7 +291,7 @@ PROPS = {
     },
     "C16": {
         "level": "proof",
-        "rules": [("GL", 24, hasnot("GL3", "component-cache", "GL6", "GL7")), ("CP", 2, has("IteTable:compl-flag")), ("ST", 2, None)],
+        "rules": [("TR", 0, has("util::lru", "builder::cache", "app_cache", "ite_cache")), ("GL", 24, hasnot("GL3", "component-cache", "GL6", "GL7")), ("CP", 2, has("IteTable:compl-flag")), ("ST", 2, None)],
         "explanation": "Complete structural argument for the first sentence: Lru::get returns Some(e.val) only under the "
                        "true edge of e.key == key (GL1); insert writes one Element{key,val,hash} of its own arguments into "
                        "the slot that get reads, grow re-inserts whole triples (GL2); the adapter's hash is a function of "
@@ -309,7 +310,7 @@ PROPS = {
     },
     "C18": {
         "level": "proof",
-        "rules": [("WF", 56, None)],
+        "rules": [("TR", 1, has("ffi::")), ("WF", 56, None)],
         "explanation": "Wrapper faithfulness of all 65 #[no_mangle] extern \"C\" exports: the value each wrapper "
                        "returns (or the one effect call it makes), reconstructed from its MIR as a term over its "
                        "parameters with marshalling stripped, equals the native operation and argument "
